@@ -21,9 +21,9 @@ var queryClasses = []gen.Tok{
 func runC05(c *core.Ctx) {
 	const thm = "C05 (props/C05.v); model op pq = ParseQuery.dump_parse_query"
 	c.ReplayKnown()
-	maxLen, nDocs := 5, 6000
+	maxLen, nDocs := 7, 20000
 	if !c.Quick {
-		maxLen, nDocs = 6, 100000
+		maxLen, nDocs = 8, 300000
 	}
 	pre := [][]byte{[]byte("1"), []byte("0")}
 	n := enumTokenSeqsPar(c, "pq", pre, queryClasses, maxLen, thm)
